@@ -309,6 +309,14 @@ func GenC14(seed uint64, run int) *Trace {
 		// a block with a 3-byte length varint
 		spec.Blocks = append(spec.Blocks, BlkSpec{Kind: "raw", Seed: 9, Size: 16400})
 	}
+	if spec.V2 && r.Chance(1, 3) {
+		// an index-less CARv2 followed by other bytes in its source (every second one), or an indexed one
+		// with a trailer: the reader must stop at the end of the payload
+		if r.Bool() {
+			spec.IndexCodec, spec.IndexPad = 0, 0
+		}
+		spec.Trailer = Pick(r, []int{1, 37, 300})
+	}
 	opts := ReadOpts{Trusted: r.Chance(1, 3)}
 	return &Trace{Prop: "C14", Engine: "medium", Seed: seed, Run: run, Medium: &MediumSpec{Image: spec, All: true, Opts: opts, Del: sim.Delivery{ErrAt: -1}}}
 }
